@@ -6,7 +6,7 @@ META = {
                   'type.c:typecommonreal', 'type.c:typerank', 'type.c:typecompatible'],
     'bounds': {'typing': 'every (operator, left type, right type) over 14 arithmetic types x 18 binary operators, x86_64 char signedness; reference = CBMC C front end (_Generic on the C expression)'},
     'stubs': ['error() ends the path after asserting nothing well-typed is rejected', 'xmalloc never NULL'],
-    'outside': ['long double', 'aarch64/riscv64 char signedness in this family (target dependence of typing is only the promotion of plain char, which is int on all three)',
+    'outside': ['floating constants', 'long double', 'aarch64/riscv64 char signedness in this family (target dependence of typing is only the promotion of plain char, which is int on all three)',
                 'pointer arithmetic typing', 'composite types'],
 }
 
@@ -36,4 +36,19 @@ def instances(build, tier, seed):
                               family='type.' + opn, timeout=120 if tier == 'quick' else 600,
                               witness=not (opk in exprlib.INTONLY and l >= 12),    # every right type is a constraint violation there: all paths end in error()
                               bound={'operator': opn, 'left': exprlib.TYPES[l] + (' bit-field, symbolic width' if bf else ''), 'right': 'symbolic over 14 arithmetic types'}))
+    natives = ['map', 'util', 'token', 'decl', 'eval', 'init', 'scope', 'attr', 'stmt', 'scan', 'pp', 'qbe', 'tree', 'utf', 'targ']
+    sufs = ['', 'u', 'l', 'ul', 'll', 'ull', 'LU', 'llu'] if tier == 'quick' else ['', 'u', 'U', 'l', 'L', 'ul', 'lu', 'UL', 'll', 'LL', 'ull', 'llu', 'LLU']
+    for base in (8, 10, 16, 2):
+        for sf in sufs:
+          variants = [('', 0)]
+          if base == 10:
+              # decimal: digits are the symbolic input; a fully symbolic 10-19 digit spelling gives no verdict in 300 s (symbolic end of the digit
+              # string), so the leading digits are concrete around each type limit and the last two are symbolic, plus all 1-3 digit constants
+              variants = [('', 3), ('21474836', 2), ('42949672', 2), ('92233720368547758', 2), ('184467440737095516', 1)]
+          for dpre, ndig in variants:
+            L.append(Inst('literal.base%d.%s%s' % (base, sf or 'none', ('.p%s' % (dpre[:4] or 'short')) if base == 10 else ''), 'h_intlit.c',
+                          {'BASE': base, 'SUFFIX': '"%s"' % sf, 'NDIG': ndig or 1, 'DPREFIX': '"%s"' % dpre}, units=['type', 'utf'], native_units=natives,
+                          unwind=(len(dpre) + ndig + 14) if base == 10 else 72, unwindset=['strcmp.0:8', 'strpbrk.0:10', 'strpbrk.1:82'], family='literal',
+                          timeout=300 if tier == 'quick' else 900, backends=['sat', 'z3'],
+                          bound={'base': base, 'suffix': sf, 'digits': ('%s + %d symbolic digits' % (dpre, ndig)) if base == 10 else 'symbolic (full 64-bit value)'}))
     return L
